@@ -225,7 +225,7 @@ Proof.
   { intros x. unfold maybe_resume. destruct (_ && _); reflexivity. }
   destruct (k =? 0) eqn:K.
   - simpl. rewrite WL. apply J_grow; auto.
-  - rewrite CF. simpl. rewrite WL. apply J_renorm; auto.
+  - simpl. rewrite WL. apply J_renorm; auto.
     + apply take_pos; auto.
     + intros u f Hu. assert (L := bytes_take_le u (a_buf a ++ [(t, n)]) k).
       rewrite bytes_app, (j_res a Ja u f Hu), (idle_not_result a t u f Ht Hu) in L. lia.
@@ -234,6 +234,12 @@ Qed.
 Lemma J_dead_state : forall a w, J a -> J (mkAd (a_cfg a) [] (a_ppaused a) true w).
 Proof.
   intros a w Ja. constructor; simpl; auto; try discriminate. apply (j_cfg a Ja).
+Qed.
+
+Lemma J_set_dead : forall a w, J a -> a_buf a = [] -> J (set_dead (with_w w a)).
+Proof.
+  intros a w [Jc Jd Jp Jpp Jw Jl Jr] B. unfold set_dead, with_w. constructor; simpl; auto; try discriminate;
+    try (rewrite B; constructor); try (intros t f _; rewrite B; reflexivity).
 Qed.
 
 Lemma J_step : forall a l a' o, J a -> ok_label (a_cfg a) l -> ad_step a l = Some (a', o) ->
@@ -250,19 +256,19 @@ Proof.
   { intros. unfold tr_writelines, maybe_pause, maybe_resume. destruct (_ || _); auto.
     destruct (k =? 0); simpl; repeat (destruct (_ && _); simpl); destruct (c_wl_pauses _); simpl;
       repeat (destruct (_ && _); simpl); reflexivity. }
-  destruct l as [t n k|t n k|t n ok|k| | |e|t|f|t]; simpl in H.
+  destruct l as [t n k|t n k|t n ok|k| | |e|t|f|t]; unfold ad_step in H.
   - destruct (get_task t (a_w a)) as [[| |]|] eqn:G; try discriminate.
-    destruct (wfc_step (a_w (tr_write t n k a)) (WDrain t)) as [[w' o']|] eqn:S; [|discriminate]. inversion H; subst.
+    destruct (wfc_step (a_w (tr_write t n k a)) (WDrain t)) as [[w' o']|] eqn:S; [|discriminate]. simpl in H. inversion H; subst.
     assert (J1 : J (tr_write t n k a)) by (apply J_write; auto).
-    destruct (lift_common _ _ _ _ J1 I S) as [A B]. split; auto.
+    destruct (lift_common _ (WDrain t) _ _ J1 I S) as [A B]. split; [exact A|split; [simpl; auto|exact B]].
   - destruct (get_task t (a_w a)) as [[| |]|] eqn:G; try discriminate.
-    destruct (wfc_step (a_w (tr_writelines t n k a)) (WDrain t)) as [[w' o']|] eqn:S; [|discriminate]. inversion H; subst.
+    destruct (wfc_step (a_w (tr_writelines t n k a)) (WDrain t)) as [[w' o']|] eqn:S; [|discriminate]. simpl in H. inversion H; subst.
     assert (J1 : J (tr_writelines t n k a)) by (apply J_writelines; auto).
-    destruct (lift_common _ _ _ _ J1 I S) as [A B]. split; auto.
+    destruct (lift_common _ (WDrain t) _ _ J1 I S) as [A B]. split; [exact A|split; [simpl; auto|exact B]].
   - destruct (get_task t (a_w a)) as [[| |]|] eqn:G; try discriminate.
-    destruct (wfc_step (a_w (tr_sendto t n ok a)) (WDrain t)) as [[w' o']|] eqn:S; [|discriminate]. inversion H; subst.
+    destruct (wfc_step (a_w (tr_sendto t n ok a)) (WDrain t)) as [[w' o']|] eqn:S; [|discriminate]. simpl in H. inversion H; subst.
     assert (J1 : J (tr_sendto t n ok a)) by (apply J_sendto; auto).
-    destruct (lift_common _ _ _ _ J1 I S) as [A B]. split; auto.
+    destruct (lift_common _ (WDrain t) _ _ J1 I S) as [A B]. split; [exact A|split; [simpl; auto|exact B]].
   - destruct (a_buf a) as [|x r] eqn:B; [discriminate|].
     destruct ((0 <? k) && (k <=? buf_size (x :: r))); [|discriminate].
     assert (D : a_dead a = false) by (apply J_alive; auto; congruence).
@@ -270,20 +276,19 @@ Proof.
     { rewrite renorm_shrink; auto; [|congruence|apply take_pos; rewrite <- B; apply (j_pos a Ja)].
       apply J_renorm; auto.
       - apply take_pos. rewrite <- B. apply (j_pos a Ja).
-      - intros u f Hu. assert (L := bytes_take_le u (x :: r) k). rewrite <- B, (j_res a Ja u f Hu) in L. lia. }
+      - intros u f Hu. assert (L := bytes_take_le u (x :: r) k).
+        assert (Z : bytes_of u (x :: r) = 0) by (rewrite <- B; eapply j_res; eauto). lia. }
     assert (C1 : a_cfg (maybe_resume (with_buf (take k (x :: r)) a)) = a_cfg a).
     { unfold maybe_resume. destruct (_ && _); reflexivity. }
     destruct (a_buf (maybe_resume (with_buf (take k (x :: r)) a))) eqn:B1.
     + destruct (w_closing (a_w (maybe_resume (with_buf (take k (x :: r)) a)))); inversion H; subst.
-      * split; [|split; [exact C1|intros t []]]. unfold set_dead, with_w. simpl. rewrite B1.
-        rewrite <- C1. apply J_dead_state; auto.
+      * split; [|split; [exact C1|intros t []]]. apply J_set_dead; auto.
       * split; [auto|split; [exact C1|intros t []]].
     + inversion H; subst. split; [auto|split; [exact C1|intros t []]].
   - destruct (a_dead a); [discriminate|]. inversion H; subst. split; [apply J_dead_state; auto|split; [reflexivity|intros t []]].
   - destruct (w_closing (a_w a)); [discriminate|]. inversion H; subst. split; [|split; [destruct (a_buf a); reflexivity|intros t []]].
     destruct (a_buf a) eqn:B.
-    + unfold set_dead, with_w. simpl. rewrite <- B at 1.
-      assert (X := J_dead_state a (wfc_closing true (a_w a)) Ja). rewrite B. exact X.
+    + apply J_set_dead; auto.
     + apply J_lift; auto.
   - destruct (a_dead a) eqn:D; simpl in H; [|discriminate]. destruct (w_lost (a_w a)); simpl in H; [discriminate|].
     inversion H; subst. split; [|split; [reflexivity|intros t []]].
@@ -291,9 +296,42 @@ Proof.
     destruct Ja as [Jc Jd Jp Jpp Jw Jl Jr]. constructor; simpl; auto; try congruence.
     intros t f _. rewrite B. reflexivity.
   - unfold lift in H. destruct (wfc_step (a_w a) (WCancel t)) as [[w' o']|] eqn:S; [|discriminate]. inversion H; subst.
-    destruct (lift_common _ _ _ _ Ja I S) as [A B]. split; auto.
+    destruct (lift_common _ (WCancel t) _ _ Ja I S) as [A B]. split; [exact A|split; [simpl; auto|exact B]].
   - unfold lift in H. destruct (wfc_step (a_w a) (WCallback f)) as [[w' o']|] eqn:S; [|discriminate]. inversion H; subst.
-    destruct (lift_common _ _ _ _ Ja I S) as [A B]. split; auto.
+    destruct (lift_common _ (WCallback f) _ _ Ja I S) as [A B]. split; [exact A|split; [simpl; auto|exact B]].
   - unfold lift in H. destruct (wfc_step (a_w a) (WWake t)) as [[w' o']|] eqn:S; [|discriminate]. inversion H; subst.
-    destruct (lift_common _ _ _ _ Ja I S) as [A B]. split; auto.
+    destruct (lift_common _ (WWake t) _ _ Ja I S) as [A B]. split; [exact A|split; [simpl; auto|exact B]].
 Qed.
+
+Lemma J_run : forall ls a a', J a -> Forall (ok_label (a_cfg a)) ls -> ad_run a ls = Some a' -> J a' /\ a_cfg a' = a_cfg a.
+Proof.
+  induction ls as [|l ls IH]; simpl; intros a a' Ja F H.
+  - inversion H; subst; auto.
+  - inversion F; subst. destruct (ad_step a l) as [[a1 o]|] eqn:E; [|discriminate].
+    destruct (J_step _ _ _ _ Ja H2 E) as [J1 [C1 _]].
+    destruct (IH a1 a' J1) as [A B]; auto.
+    + rewrite C1. auto.
+    + split; auto. congruence.
+Qed.
+
+Lemma send_returns_only_when_flushed_proof :
+  forall c n ls a, Hc c -> Forall (ok_label c) ls -> ad_run (ad_init c n) ls = Some a ->
+    forall l a' o t, ok_label c l -> ad_step a l = Some (a', o) -> In (ODrain t ROk) o -> bytes_of t (a_buf a') = 0.
+Proof.
+  intros c n ls a H F R l a' o t OK S I.
+  destruct (J_run ls (ad_init c n) a (J_init c n H) F R) as [Ja Ca]. simpl in Ca.
+  rewrite <- Ca in OK. destruct (J_step _ _ _ _ Ja OK S) as [_ [_ B]]. auto.
+Qed.
+
+(* F6: writelines() without _maybe_pause_protocol (CPython 3.12.1): the send returns with a byte in user space *)
+Lemma send_unflushed_writelines_refuted_proof :
+  exists a' o, ad_step (ad_init (mkCfg 0 0 false) 1) (ASendIter 0 3 2) = Some (a', o) /\
+               In (ODrain 0 ROk) o /\ bytes_of 0 (a_buf a') = 1.
+Proof. eexists. eexists. split; [vm_compute; reflexivity|]. split; [left; reflexivity|reflexivity]. Qed.
+
+(* F5: a non-zero high-water mark (asyncio's default is 64 KiB; 4 here, the marks are unary numbers): the datagram
+   send returns with the datagram in user space *)
+Lemma send_unflushed_datagram_refuted_proof :
+  exists a' o, ad_step (ad_init (mkCfg 4 1 true) 1) (ASendTo 0 3 false) = Some (a', o) /\
+               In (ODrain 0 ROk) o /\ bytes_of 0 (a_buf a') = 3.
+Proof. eexists. eexists. split; [vm_compute; reflexivity|]. split; [left; reflexivity|reflexivity]. Qed.
